@@ -38,6 +38,36 @@ extern "C" void harness_c10_diff()
     verif_assert(eq(*e->diff(z), *zero), "the derivative with respect to an absent symbol is exactly zero");
     VERIF_END();
 }
+// linear combinations c1*f(x) + c2*g(x) + y with symbolic integer coefficients (the Add rule with coefficients and with term
+// derivatives that are themselves sums, e.g. c*tan(x) -> c + c*tan(x)**2)
+extern "C" void harness_c10_linear()
+{
+    static const int F[] = {O_TAN, O_TANH, O_COT, O_SIN, O_EXP, O_LOG, O_ATAN, O_POWI};
+    Recipe r;
+    auto push = [&](Node n) { r.n.push_back(n); return (int)r.n.size() - 1; };
+    auto leaf = [&](int op) { Node n; n.op = op; return push(n); };
+    auto un = [&](int op, int a) { Node n; n.op = op; n.a = a; n.p = 3; return push(n); };
+    auto bin = [&](int op, int a, int b) { Node n; n.op = op; n.a = a; n.b = b; return push(n); };
+    auto coef = [&](const std::string &name) { Node n; n.op = L_SYMNUM; n.symnum = vs::sym_integer(name, -verif_param("symB", 3), verif_param("symB", 3)); return push(n); };
+    int x1 = leaf(L_X), x2 = leaf(L_X);
+    int f1 = un(F[verif_choice("f1", 8)], x1), f2 = un(F[verif_choice("f2", 8)], x2);
+    // x*log(x)-like product term as second summand in half of the cases
+    if (verif_choice("prod", 2))
+        f2 = bin(O_MUL, leaf(L_X), f2);
+    int t1 = bin(O_MUL, coef("c1"), f1), t2 = bin(O_MUL, coef("c2"), f2);
+    r.root = bin(O_ADD, bin(O_ADD, t1, t2), leaf(L_Y));
+    ve::Env env = ve::std_env();
+    RCP<const Basic> e = build(r, r.root);
+    RCP<const Symbol> s = symbol("x");
+    Dual ref = eval(r, r.root, env, "x");
+    RCP<const Basic> d = e->diff(s);
+    try {
+        verif_assert_req(ve::ev(*d, env), ref.d, "diff(c1*f(x) + c2*g(x) + y, x) equals the derivative");
+    } catch (ve::Unsupported &u) {
+        verif_assert(false, "oracle cannot interpret a node of the result");
+    }
+    VERIF_END();
+}
 // unevaluated derivatives and substitutions follow the chain rule: f(g(x)) with f an undefined function
 extern "C" void harness_c10_chain()
 {
